@@ -50,13 +50,16 @@ def harnesses():
                      fns=["inv_ring", "wrapping_mul", "saturating_mul", "overflowing_mul"]))
     for b in [7, 8, 65, 127]:
         l, nb = nlimbs(b), nbytes(b)
-        out.append(H("c04_closure_decoders_%d" % b, "C04", "c04::closure_decoders::<%d,%d,%d>" % (b, l, nb + 1),
-                     unwind=max(nb + 4, 8), tier="quick" if b in (8, 65) else "thorough", inst="Uint<%d,%d>" % (b, l),
-                     stubs=[("alloc::fmt::format", "stubs::format_stub")], timeout=1800,
-                     domain="u64 digit strings of symbolic length 0..=3 in base 3/10/1000/2^32 (LE and BE), ASCII strings of "
-                            "symbolic length 0..=3 in radix 10/36, byte slices of symbolic length 0..=BYTES+1, 2-limb slices",
-                     free_bits=64 * 3 + 21 + 8 * (nb + 1) + 12,
-                     fns=["from_base_be", "from_base_le", "from_str_radix", "try_from_be_slice", "try_from_le_slice",
-                          "checked_from_limbs_slice"],
-                     covers_required=["accepts-digits", "accepts-bytes"]))
+        for w, wn in enumerate(["digits", "text", "bytes"]):
+            if wn == "text":
+                continue   # from_str_radix under a symbolic radix: 6-9 GB and no verdict in 600 s at 8 bits; C09's parse harnesses decide its values
+            out.append(H("c04_closure_decoders_%d_%s" % (b, wn), "C04", "c04::closure_decoders::<%d,%d,%d,%d>" % (b, l, nb + 1, w),
+                         unwind=max(nb + 4, 8), tier="quick" if (b == 8 or (b == 65 and w == 2)) else "thorough",
+                         inst="Uint<%d,%d>" % (b, l), stubs=[("alloc::fmt::format", "stubs::format_stub")], timeout=1800,
+                         role="c04::closure_decoders." + wn,
+                         domain=["u64 digit strings of symbolic length 0..=3 in base 3/10/1000/2^32 (LE and BE), 2-limb slices",
+                                 "ASCII strings of symbolic length 0..=3 in radix 10/36",
+                                 "byte slices of symbolic length 0..=BYTES+1"][w], free_bits=[64 * 3 + 4, 23, 8 * (nb + 1) + 4][w],
+                         fns=[["from_base_be", "from_base_le", "checked_from_limbs_slice"], ["from_str_radix"],
+                              ["try_from_be_slice", "try_from_le_slice"]][w], covers_required=["accepts"]))
     return out
